@@ -204,15 +204,19 @@ func runOne(x *X, fn func(*X), deadline time.Duration) bool {
 		return false
 	case <-time.After(deadline):
 	}
-	stuck, gs := vt.ConfirmStuck(func() []vt.Goroutine {
+	stuck, gs := vt.ConfirmStuckP(func() []vt.Goroutine {
 		var out []vt.Goroutine
+		self := vt.GoID()
 		for _, g := range vt.Dump() {
+			if g.ID == self {
+				continue // the watchdog itself
+			}
 			if strings.Contains(g.Text, "go.uber.org/cff/scheduler.") || strings.Contains(g.Text, "h.runOne.func1") {
 				out = append(out, g)
 			}
 		}
 		return out
-	}, 2*time.Second)
+	}, 2*time.Second, func() int64 { x.mu.Lock(); defer x.mu.Unlock(); return x.n })
 	select {
 	case <-finished:
 		return false
